@@ -33,7 +33,7 @@ PAIRS = [f"pair:{p}{s}{c}" for p in fm.BINOPS for s in "LR" for c in fm.BINOPS]
 REQUIRED_BUCKETS = ["mode:string", "mode:builder", "mode:api", "mode:api3", "redundant-parens", "same-engine-twice",
                     "api-min-max", "api-consumption-production", "api-constant", "subexpression-zero", "mode:builderx",
                     "builder-clip-step", "inputs-begin-at-different-times",
-                    "distinct-engines-with-the-same-name"] + PAIRS
+                    "distinct-engines-with-the-same-name", "mode:pool", "api-nested-builds"] + PAIRS
 REQUIRED_COUNTERS = ["rounds_compared", "programs_run", "rounds_with_division_by_zero"]
 ASSUMPTIONS = ["inputs finite; outputs compared per input timestamp; one output per input vector"]
 
@@ -45,7 +45,7 @@ def budget(tier: str) -> dict[str, Any]:
 
 
 def gen(rng: Any, tier: str, i: int) -> Any:
-    mode = rng.choice(["string", "string", "builder", "api", "api", "api3", "builderx"])
+    mode = rng.choice(["string", "string", "builder", "api", "api", "api3", "builderx", "pool"])
     api = mode == "api"
     nleaf = rng.randint(1, 4) if mode != "api3" else rng.randint(1, 2)
     # (3-phase engines take no constants and have no unary operators in their typed API: plain + - * / min max trees)
@@ -54,8 +54,10 @@ def gen(rng: Any, tier: str, i: int) -> Any:
     if ast[0] == "leaf":
         ast = ["bin", rng.choice(fm.BINOPS), ast, ["leaf", rng.randrange(nleaf)]]
     prog: dict[str, Any] = {"mode": mode, "nleaf": nleaf, "ast": ast}
-    if mode in ("string", "builder"):
+    if mode in ("string", "builder", "pool"):
         prog["src"] = fm.to_str(ast, rng)
+    if mode == "api" and rng.random() < 0.4:
+        prog["nest"] = True
     vecs = []
     for _ in range(8):
         r = rng.random()
@@ -198,6 +200,8 @@ def check(prog: dict[str, Any], rec: Any) -> None:
         rec.bucket("api-consumption-production")
     if _has(ast, lambda a: a[0] == "un" and a[1] == "clip"):
         rec.bucket("builder-clip-step")
+    if prog.get("nest"):
+        rec.bucket("api-nested-builds")
     if prog.get("prelude"):
         rec.bucket("inputs-begin-at-different-times")
     if prog.get("leaf_names") and len(set(prog["leaf_names"][i] for i in set(lv))) < len(set(lv)):
